@@ -1,29 +1,28 @@
 #!/bin/bash
-# usage: tools/seed_matrix.sh [jobs]  — checker self-test (not a registered check): runs every check against every
-# seeded change (in scratch copies outside /repo and /verif) and writes seeded/MATRIX.tsv: seed, own property detected?, all detecting properties.
+# usage: tools/seed_matrix.sh [jobs] [seed-regex]  — checker self-test (not a registered check): runs every check against every
+# seeded change (scratch copies outside /repo and /verif, removed afterwards) and writes seeded/MATRIX.tsv:
+#   seed <tab> own property detected? <tab> all detecting properties <tab> first failing obligation of the own property
 . /verif/tools/env.sh
-jobs=${1:-8}
+jobs=${1:-6}; re=${2:-.}
 out=/verif/seeded/MATRIX.tsv
 tmp=$(mktemp -d /tmp/gsv-matrix.XXXXXX)
 trap 'rm -rf "$tmp"' EXIT
-ids=$(cd /verif && bin/gsverif list)
 one() {
   seed=$1; d=/verif/seeded/$seed
   scratch=$(mktemp -d /tmp/gsv-scratch.XXXXXX)
   mkdir -p $scratch/repo $scratch/home
   rsync -a --exclude .git /repo/ $scratch/repo/
   cp /verif/known_findings.json $scratch/home/
-  if ! (cd $scratch/repo && patch -p1 -s < $d/patch.diff >/dev/null 2>&1); then echo -e "$seed\tPATCH-FAILED\t" ; rm -rf $scratch; return; fi
-  det=""
-  for id in $IDS; do
-    if ! GSVERIF_REPO=$scratch/repo GSVERIF_HOME=$scratch/home /verif/bin/gsverif check $id >/dev/null 2>&1; then det="$det $id"; fi
-  done
+  if ! (cd $scratch/repo && patch -p1 -s < $d/patch.diff >/dev/null 2>&1); then echo -e "$seed\tPATCH-FAILED\t\t" ; rm -rf $scratch; return; fi
+  res=$(GSVERIF_REPO=$scratch/repo GSVERIF_HOME=$scratch/home /verif/bin/gsverif checkall 2>&1)
+  det=$(echo "$res" | grep '^VIOLATION' | sed 's/VIOLATION property=\([A-Z0-9]*\).*/\1/' | sort -u | tr '\n' ' ')
   own=${seed%%-*}
   case " $det " in *" $own "*) o=yes;; *) o=NO;; esac
-  echo -e "$seed\t$o\t$det"
+  first=$(echo "$res" | grep "^FAILED $own\." | head -1 | sed "s#$scratch/repo/##g" | cut -c1-220)
+  echo -e "$seed\t$o\t$det\t$first"
   rm -rf $scratch
 }
-export -f one; export IDS="$ids"
-ls /verif/seeded | grep -E '^C[0-9]+-[0-9]+$' | xargs -P $jobs -I{} bash -c 'one {}' | sort > $tmp/m.tsv
-cp $tmp/m.tsv $out
-cat $out
+export -f one
+ls /verif/seeded | grep -E '^C[0-9]+-[0-9]+$' | grep -E "$re" | xargs -P $jobs -I{} bash -c 'one {}' | sort > $tmp/m.tsv
+if [ "$re" = "." ]; then cp $tmp/m.tsv $out; else grep -v -E "^($re)" $out 2>/dev/null | grep -vE "^($(cut -f1 $tmp/m.tsv | paste -sd'|'))	" > $tmp/o.tsv; cat $tmp/o.tsv $tmp/m.tsv | sort > $out; fi
+cat $tmp/m.tsv
